@@ -64,13 +64,23 @@ ModelStep(S, T, e) ==
     [] e.ph = "F" -> FinalizeStep(S, T)
     [] OTHER -> EofStep(S)
 
+\* byte offsets: the model works in character positions; every recorded byte offset (cursor, tokens,
+\* line starts, errors) must be the byte offset of the corresponding character position
+ByteDiffs(r, e) ==
+  LET BO(c) == IF c >= 0 /\ c <= Len(r.cs) THEN r.cb[c + 1] ELSE 0 - 1 IN
+  (IF e.ba = BO(e.ca) THEN {} ELSE {"cursor-bytes"}) \cup
+  (IF \A j \in 1..Len(e.tt) : e.tt[j].b = BO(e.tt[j].c) THEN {} ELSE {"token-bytes"}) \cup
+  (IF \A j \in 1..Len(e.lt) : e.lt[j][1] = BO(e.lt[j][2]) THEN {} ELSE {"line-bytes"}) \cup
+  (IF \A j \in 1..Len(e.ne) : e.ne[j].b = BO(e.ne[j].c) THEN {} ELSE {"error-bytes"}) \cup
+  (IF e.cfg.ck.set => e.cfg.ck.b = BO(e.cfg.ck.c) THEN {} ELSE {"checkpoint-bytes"})
+
 RECURSIVE ConfLoop(_, _, _, _, _)
 ConfLoop(r, T, S, i, acc) ==
   IF i > Len(r.events) THEN acc
   ELSE LET e == r.events[i]
            \* finalize pops the mode before the hook records it: the recorded stack lacks it
            S1 == ModelStep(S, T, e)
-           d == StepDiffs(S, S1, e)
+           d == StepDiffs(S, S1, e) \cup ByteDiffs(r, e)
        IN IF d = {} THEN ConfLoop(r, T, S1, i + 1, acc)
           ELSE ConfLoop(r, T, Adopt(S, e), i + 1, acc \cup {<<i, e.ph, e.mb.k, f>> : f \in d})
 
